@@ -110,6 +110,26 @@ def prepare_inputs(ctx, case, d):
     poly = c15_poly.PolyScenario.from_case(rngless["poly"])
     P["pfa"], P["pbam"], P["pvcf"] = poly.write(os.path.join(d, "poly"))
     P["ploidy"] = list(poly.ploidy.values())[0]
+    # the same polyploid data with pre-phased stretches (true haplotype order, PS) for the FIRST sample only: with
+    # --use-prephasing one sample has phased blocks and the other has none (per-sample state must not leak)
+    precs = poly.vcf_records()
+    idx = 0
+    s0 = poly.samples[0]
+    for name in poly.contigs:
+        nv = len(poly.variants[name])
+        for i in range(nv):
+            r = precs[idx]; idx += 1
+            r["format"] = ["GT", "PS"]
+            for c in r["calls"]:
+                c["PS"] = "."
+            col = [h[i] for h in poly.haps[f"{s0}|{name}"]]
+            first_contig = name == list(poly.contigs)[0]
+            block = 0 if first_contig else i // 3     # first contig: ONE stretch across the coverage gap
+            if (first_contig or block % 2 == 0) and len(set(col)) > 1 and "." not in r["calls"][0]["GT"]:
+                r["calls"][0] = {"GT": "|".join(map(str, col)), "PS": poly.variants[name][3 * block]["pos"] + 1}
+    P["pvcf_pre"] = os.path.join(d, "poly", "in_pre.vcf")
+    sim.write_vcf(P["pvcf_pre"], poly.contigs, poly.all_samples(), precs,
+                  fmt_defs={"PS": '##FORMAT=<ID=PS,Number=1,Type=Integer,Description="Phase set">'})
     # derived inputs, produced once with the baseline configuration
     env0 = {"PYTHONHASHSEED": "0"}
 
@@ -157,6 +177,10 @@ def subcommands(P, quick):
     def polyphase(o, t):
         return (["polyphase", P["pvcf"], P["pbam"], "--ploidy", P["ploidy"], "-o", o + "/out.vcf", "--reference", P["pfa"],
                  "--threads", t], {"vcf": (o + "/out.vcf", "vcf")})
+
+    def polyphase_pre(o, t):
+        return (["polyphase", P["pvcf_pre"], P["pbam"], "--ploidy", P["ploidy"], "-o", o + "/out.vcf", "--reference",
+                 P["pfa"], "--use-prephasing", "-B", "0", "--threads", t], {"vcf": (o + "/out.vcf", "vcf")})
 
     def haplotag(o, t):
         return (["haplotag", P["phasedA_gz"], P["bam"], "-o", o + "/out.bam", "--reference", P["fa"],
@@ -208,6 +232,7 @@ def subcommands(P, quick):
     if not quick:
         subs["genotype-ped"] = (genotype_ped, [None])
     subs["polyphase"] = (polyphase, [1, 2, 3, 4])
+    subs["polyphase-prephasing"] = (polyphase_pre, [1, 2])
     subs["haplotag"] = (haplotag, [1, 2, 3, 4])
     subs["haplotag-regions"] = (haplotag_regions, [None])
     subs["unphase"] = (unphase, [None])
